@@ -279,7 +279,11 @@ def main(argv):
     ck.stats["oracle_self_validation_residuals"] = val
     if max(val.values()) > 1e-10:
         ck.correspondence_broken("ewald_oracle self-validation", str(val))
-    ck.translate("gen_energy")
+    tr = ck.translate("gen_energy")
+    if tr is not None:
+        import gen_energy
+        ck.stats["einsum_sites_typed"] = len(tr["contractions"])
+        ck.stats["einsum_sites_left_to_the_oracle_untyped"] = list(gen_energy.UNTYPED)
     ck.coq_build("C10", THEOREMS)
     if not ck.replay:
         check_open(ck)
